@@ -145,12 +145,15 @@ CLAIMS = {
               "snapshot round trip (restart_reproduces, on C07's regenerated tables; the log suffix is C02/C03, the catalogue "
               "and last_applied C05); the round trip itself is proved for the configuration component on C09's model "
               "(config_value_roundtrip, get_after_snapshot_load, publish/update/import_snapshotable; temporary values as a "
-              "visible caveat) and is a hypothesis for the other six components, checked by the correspondence: node R is "
+              "visible caveat) and for the namespace component on RNacos/Model/Namespace.lean (namespace_component_roundtrip: the "
+              "user-created namespaces served after a start from a snapshot are those of the node that wrote it, in use or not; "
+              "that model is executed by the driver against the namespace list the never-stopped node serves), and is a "
+              "hypothesis for the other five components, checked by the correspondence: node R is "
               "compacted, restarted, killed, compacted-and-interrupted at arbitrary points and must dump the same served "
               "state as node L that never stops (component snapshot records, served configurations, served user namespaces, "
               "history ids drawn by the node itself). Found and fixed this way: F22 (stale tail of an interrupted snapshot "
               "resurrects deleted items)."),
-        note=("trusted: as C07; partial by construction: only the configuration component's encoder is modelled; the other "
+        note=("trusted: as C07; partial by construction: only the configuration and namespace components' encoders are modelled; the other "
               "components are compared through their own snapshot encoding and the configuration queries; normType "
               "idempotence is a hypothesis (core String functions do not reduce in the kernel); the race between a snapshot "
               "build and concurrent applies is not reproduced; 1 open finding F23"),
